@@ -762,8 +762,9 @@ wait:
 	// model exploration requests (the driver runs a breadth-first search of the regenerated model)
 	out.printf("case search\n")
 	out.printf("search 2 | ok\n")
+	out.printf("search 3 | ok\n")
 	if thorough {
-		out.printf("search 3 | ok\n")
+		out.printf("search 4 | ok\n")
 	}
 
 	// stress: fixed work per round; thread counts 2..32 on all cores, plus restricted-P variants
